@@ -297,6 +297,21 @@ def t4_literals(ctx):
             exact = None
     if exact is not None:
         r.check(exact, "PushIC/encode", "opcode, 32 − leading zero bytes, the remaining bytes", "PushIC encode writes %s" % ws)
+    # what take_while counts: bytes equal to zero (the closure is printed as `closure[]` above, its test is read here)
+    encb = ctx.prog.body("melvm::opcode::OpCode::encode")
+    tws = [(c, bi, e_) for c in (ctx.prog.all_nested(encb) if encb is not None else []) for bi, e_ in q.call_exprs(c, "take_while")]
+    for c, bi, e_ in tws:
+        cl = mir.strip(e_[2][1]) if len(e_[2]) > 1 else None
+        cb_ = ctx.prog.body(cl[1]) if cl and cl[0] == "closure" else None
+        rr_ = q.ret_assignments(cb_) if cb_ is not None else []
+        if len(rr_) == 1:
+            t_ = sig(q.novers(mir.strip(rr_[0][2])))
+            if t_ in ("Eq($2, 0)", "Eq(0, $2)"):
+                r.ok("PushIC/encode-zero-test", "leading bytes are counted while they are zero")
+            elif t_.startswith(("Eq(", "Ne(", "Lt(", "Gt(", "Le(", "Ge(")):
+                r.violation("PushIC/encode-zero-test", "the leading bytes of a PushIC literal are counted while %s, not while they are zero: the length byte is not the minimal length" % t_, c.where(bi))
+            else:
+                r.undecided("PushIC/encode-zero-test", "take_while predicate %s not read" % t_[:80])
     d = [v for k, v in dec.items() if any(dict(x[1][3])["0"][2] == "PushIC" for x in v["built"])]
     r.check(bool(d), "PushIC/decode-arm", "decode arm present", "no decode arm for PushIC")
     if d:
@@ -317,6 +332,13 @@ def t4_literals(ctx):
         pay = sig(q.novers(dict(dict(agg[3])["0"][3])["0"]))
         import re as _re
         r.check(bool(_re.fullmatch(r"ethnum::uint::api::<impl ethnum::U256>::from_le_bytes\([A-Za-z_][A-Za-z_0-9]*(#\d+)?\)", pay)), "PushIC/value", "value = from_le_bytes(32-byte buffer)", "PushIC value = %s" % pay)
+        # the bytes are actually read: every path to the PushIC result passes a read_exact into the prefix of the 32-byte buffer
+        reads = [cb for cb, ce in q.call_exprs(db, "read_exact") if cb in d["reach"] and ("RangeTo" in sig(q.novers(ce)) or "buf" in sig(q.novers(ce)) or "blit" in sig(q.novers(ce)))]
+        if reads:
+            wo = db.reachable(0, removed=reads)
+            r.check(not any(o in wo for o in okb), "PushIC/decode-read", "the literal's bytes are read on every path", "a PushIC can be decoded without its bytes being read from the input", db.where(reads[0]))
+        else:
+            r.violation("PushIC/decode-read", "the PushIC arm of decode never reads the literal's bytes (no read_exact into the buffer): every value decodes as 0 or is refused as non-canonical")
         rev = [cb for cb, ce in q.call_exprs(db, "reverse") if cb in d["reach"]]
         r.check(len(rev) == 1, "PushIC/reverse", "prefix reversed (big-endian on the wire)", "%d reversals" % len(rev))
 
